@@ -58,7 +58,7 @@ def shareBelow (cap v t : Int) : Bool := decide (100 * (Dec.P : Int) * v < cap *
 
 /-- clause 2 on one message -/
 def commissionOK (minCommission : Int) : Body → Bool
-  | .createVal r => decide (minCommission ≤ r)
+  | .createVal r _ _ => decide (minCommission ≤ r)
   | .editVal (some r) => decide (minCommission ≤ r)
   | _ => true
 
@@ -87,7 +87,7 @@ def stepPending (env : StakeEnv) (p : Pending) : Body → Pending
     | some _ => p.add dst (if src = dst then 0 else amt) 0
   | _ => p
 
-/-- every (re)delegation of the list, in execution order, stays below the cap -/
+/-- every (re)delegation of the list, in execution order, stays below the cap (fixed base state) -/
 def seqCapOK (cap : Int) (env : StakeEnv) : Pending → List Leaf → Bool
   | _, [] => true
   | p, l :: ls => capOK cap env p l.body && seqCapOK cap env (stepPending env p l.body) ls
@@ -103,14 +103,36 @@ def endOK (cap : Int) (env : StakeEnv) (p : Pending) : Bool :=
     | none => true
     | some tok => shareBelow cap (tok + p.get e.1) (env.total + p.total))
 
+/-- a MsgCreateValidator that executes puts a new validator holding its self-delegation `value` into the
+    stake the later messages of the transaction meet (creating an existing validator cannot execute) -/
+def createEnv (env : StakeEnv) : Body → StakeEnv
+  | .createVal _ v value =>
+    match env.tokens v with
+    | some _ => env
+    | none => ⟨env.total + value, (v, value) :: env.vals⟩
+  | _ => env
+
+/-- the same in execution order over a stake that also gains the validators the transaction creates:
+    a (re)delegation to a validator created earlier in the transaction is judged with that validator's
+    self-delegation in its tokens and in the total -/
+def seqCapOKx (cap : Int) : StakeEnv → Pending → List Leaf → Bool
+  | _, _, [] => true
+  | env, p, l :: ls => capOK cap env p l.body && seqCapOKx cap (createEnv env l.body) (stepPending env p l.body) ls
+
+def finalX : StakeEnv → Pending → List Leaf → StakeEnv × Pending
+  | env, p, [] => (env, p)
+  | env, p, l :: ls => finalX (createEnv env l.body) (stepPending env p l.body) ls
+
 /-- clauses 2 and 3: an accepted transaction contains, at any nesting depth, no validator
     creation/edit below the minimum commission; every (re)delegation, judged against the stake as it
-    will be when it executes, stays below the cap; and so does every validator once all of them ran -/
+    will be when it executes (including validators the transaction itself creates, with their
+    self-delegation), stays below the cap; and so does, once all messages ran, every validator that
+    received a (re)delegation -/
 def stakingOK (accepted : Bool) (minCommission cap : Int) (env : StakeEnv) (ms : List Msg) : Bool :=
   !accepted ||
     ((leavesList ms).all (fun l => commissionOK minCommission l.body) &&
-     seqCapOK cap env Pending.empty (leavesList ms) &&
-     endOK cap env (finalPending env Pending.empty (leavesList ms)))
+     seqCapOKx cap env Pending.empty (leavesList ms) &&
+     endOK cap (finalX env Pending.empty (leavesList ms)).1 (finalX env Pending.empty (leavesList ms)).2)
 
 /-- executed effects -/
 def commissionEffectOK (minCommission rate : Int) : Bool := decide (minCommission ≤ rate)
@@ -128,6 +150,7 @@ def envValid (env : StakeEnv) : Bool := decide (0 ≤ env.total) && env.vals.all
 def bodyAmountsValid : Body → Bool
   | .delegate _ amt => decide (0 ≤ amt)
   | .redelegate _ _ amt => decide (0 ≤ amt)
+  | .createVal _ _ value => decide (0 ≤ value)
   | _ => true
 
 def amountsValid (ms : List Msg) : Bool := (leavesList ms).all (fun l => bodyAmountsValid l.body)
